@@ -278,6 +278,14 @@ def run(desc, M):
             M.check(not shares(res.values, pf.values), "result aliases operand")
         fn = (lambda a: f.val(a) * c) if op == "product" else (lambda a: f.val(a) + c)
         check_result(desc, M, res, desc["sf"], fn, "scalar-" + op)
+        # operator forms with the scalar on either side (__mul__/__rmul__, __add__/__radd__) agree and leave the operand alone
+        if desc["scalar"] != "sym":
+            pf3 = f.build(M, desc)
+            s3 = snap(pf3)
+            for side, r3 in (("right", pf3 * ci if op == "product" else pf3 + ci), ("left", ci * pf3 if op == "product" else ci + pf3)):
+                same_snap(M, pf3, s3, f"scalar on the {side}: operand untouched")
+                M.check(not shares(r3.values, pf3.values), f"scalar on the {side}: result aliases operand")
+                check_result(desc, M, r3, desc["sf"], fn, f"scalar-{op}-operator-{side}")
     elif fam == "unary":
         M.declare(F.names(desc, "f", desc["sf"]))
         f = F(M, desc, "f", desc["sf"])
